@@ -57,6 +57,7 @@ type histServer struct {
 	p    *prng.R
 	// counters
 	foundTrue, foundFalse, update3 int
+	lastNotes                      []string // JSON of the notifications of the last transaction
 }
 
 func newHistServer(m *dyn.Model, path string, p *prng.R) (*histServer, error) {
@@ -86,6 +87,14 @@ func newHistServer(m *dyn.Model, path string, p *prng.R) (*histServer, error) {
 	srv.Handle("monitor_cond", func(c *rpc2.Client, args []json.RawMessage, reply *HistUpdates) error {
 		var r []interface{}
 		if err := h.monitor(c, "monitor_cond", args, &r); err != nil {
+			return err
+		}
+		*reply = r[0].(HistUpdates)
+		return nil
+	})
+	srv.Handle("monitor", func(c *rpc2.Client, args []json.RawMessage, reply *HistUpdates) error {
+		var r []interface{}
+		if err := h.monitor(c, "monitor", args, &r); err != nil {
 			return err
 		}
 		*reply = r[0].(HistUpdates)
@@ -133,6 +142,39 @@ func (c *serialCodec) WriteResponse(r *rpc2.Response, v interface{}) error {
 	c.mu.Lock()
 	defer c.mu.Unlock()
 	return c.Codec.WriteResponse(r, v)
+}
+
+// deltaV1 encodes the changes from a to b as RFC 7047 <table-updates>: insert = new,
+// delete = old, modify = old values of the changed columns + the whole new row.
+func (h *histServer) deltaV1(a, b *ref.DB, tables map[string]bool) HistUpdates {
+	out := HistUpdates{}
+	for _, ch := range dbDelta(a, b) {
+		if !tables[ch.table] {
+			continue
+		}
+		t := h.m.S.Table(ch.table)
+		if out[ch.table] == nil {
+			out[ch.table] = map[string]map[string]interface{}{}
+		}
+		ru := map[string]interface{}{}
+		switch {
+		case ch.old == nil:
+			ru["new"] = h.m.OvsRow(ch.table, ch.new)
+		case ch.new == nil:
+			ru["old"] = h.m.OvsRow(ch.table, ch.old)
+		default:
+			old := ref.Row{}
+			for _, c := range t.Cols {
+				if !ch.old[c.Name].Equal(ch.new[c.Name]) {
+					old[c.Name] = ch.old[c.Name]
+				}
+			}
+			ru["old"] = h.m.OvsRow(ch.table, old)
+			ru["new"] = h.m.OvsRow(ch.table, ch.new)
+		}
+		out[ch.table][ch.uuid] = ru
+	}
+	return out
 }
 
 // delta encodes the changes from a to b on the given tables as update2 rows.
@@ -194,6 +236,8 @@ func (h *histServer) monitor(c *rpc2.Client, method string, args []json.RawMessa
 		}
 		h.foundFalse++
 		*reply = []interface{}{false, cur.id, h.delta(ref.NewDB(h.m.S), cur.db, tables, true)}
+	} else if method == "monitor" {
+		*reply = []interface{}{h.deltaV1(ref.NewDB(h.m.S), cur.db, tables)}
 	} else {
 		*reply = []interface{}{h.delta(ref.NewDB(h.m.S), cur.db, tables, true)}
 	}
@@ -220,14 +264,23 @@ func (h *histServer) apply(ops []ref.Op) error {
 	}
 	var notes []note
 	for _, mo := range mons {
-		if tu := h.delta(pre, h.db, mo.tables, false); len(tu) > 0 {
+		tu := h.delta(pre, h.db, mo.tables, false)
+		if mo.method == "monitor" {
+			tu = h.deltaV1(pre, h.db, mo.tables)
+		}
+		if len(tu) > 0 {
 			notes = append(notes, note{mo, tu})
 		}
+	}
+	h.lastNotes = nil
+	for _, n := range notes {
+		b, _ := json.Marshal(n.tu)
+		h.lastNotes = append(h.lastNotes, n.mo.method+" "+string(b))
 	}
 	h.mu.Unlock()
 	for _, n := range notes {
 		var reply interface{}
-		call := n.mo.c.Go(map[string]string{"monitor_cond_since": "update3", "monitor_cond": "update2"}[n.mo.method],
+		call := n.mo.c.Go(map[string]string{"monitor_cond_since": "update3", "monitor_cond": "update2", "monitor": "update"}[n.mo.method],
 			func() []interface{} {
 				if n.mo.method == "monitor_cond_since" {
 					h.mu.Lock()
